@@ -61,6 +61,9 @@ def gen_plan(seed, tier="quick"):
     fixture = r.choice(["NP1", "NP1", "NP21", "NP24"])
     nap = r.choice([8, 8, 12, 16, 16, 24, 32, 64, 96]) if r.random() < 0.9 else r.choice([8, 16])
     nbatch = r.choice([2560, 3072, 4096, 4096, 6144, 8192])
+    nbatch_default = r.random() < 0.04     # nbatch=None: the default 65536, i.e. one batch for these recordings
+    if nbatch_default:
+        nbatch = 65536
     stride = nbatch - 2 * T
     mode = r.random()
     if mode < 0.25:
@@ -93,6 +96,7 @@ def gen_plan(seed, tier="quick"):
     wrot = r.choice(["none", "none", "scalar", "matrix"])
     plan = {
         "property": PROP, "seed": seed, "fixture": fixture, "nap": nap, "ns": ns, "nbatch": nbatch, "nproc": nproc,
+        "nbatch_default": nbatch_default,
         "data_seed": r.randrange(1 << 30), "amp": 60 if fixture == "NP1" else 400, "maxint": maxint, "saturate": sat,
         "k_filter": k_filter, "reject": reject, "wrot": wrot, "wrot_seed": r.randrange(1 << 30),
         "ns2add": r.choice([0, 0, 0, 7, 100, (-ns) % 512]), "drop_sync": r.random() < 0.3,
@@ -154,7 +158,7 @@ def _wrot(plan, ncv):
 
 def _destripe_call(plan, binf, out, nproc, append, W):
     fs = W["fs"]
-    kw = dict(output_file=out, nprocesses=nproc, nbatch=plan["nbatch"], k_kwargs=_k_kwargs(plan, fs),
+    kw = dict(output_file=out, nprocesses=nproc, nbatch=(None if plan.get("nbatch_default") else plan["nbatch"]), k_kwargs=_k_kwargs(plan, fs),
               k_filter=_k_filter(plan, W), reject_channels=_reject(plan), wrot=_wrot(plan, W["ncv"]),
               ns2add=plan["ns2add"], append=append)
     if plan["drop_sync"]:
